@@ -495,6 +495,14 @@ func runC09(c *Ctx) {
 	if nFail == 0 {
 		c.bad("C09/error-ack-discards-app-state", entryRecv1, "", "no returning path class with an unsuccessful acknowledgement was found (rule would pass vacuously)")
 	}
+	// IBC v2: same outcome rule on the shared cache (failure discards, success and async persist)
+	c.v2RecvCommitRule(which, "C09/v2")
+	if rr2 := c.Run(which, entryRecv2); rr2 != nil {
+		c.Check(which, "C09/v2/write-ack", c.Calls(rr2, "$chanK2.writeAcknowledgement"), 1, pktMacros, nil,
+			Req{Name: "on-entry-ctx", Args: map[int]string{1: "$ECTX", 2: "$PKT"}})
+		c.Check(which, "C09/v2/async-store", c.Calls(rr2, "$chanK2.SetAsyncPacket"), 1, pktMacros, nil,
+			Req{Name: "on-entry-ctx", Args: map[int]string{1: "$ECTX", 2: "$DCL", 3: "$SEQ"}})
+	}
 }
 
 // ---------------------------------------------------------------- C11
